@@ -179,6 +179,10 @@ func canBeNumber(q query) bool {
 // processFilterNode builds query for the XPath filter predicate.
 func (b *builder) processFilter(root *filterNode, flags flag, props *builderProp) (query, error) {
 	first := (flags & flagsEnum.Filter) == 0
+	// A descendant step that carries a predicate must still visit the matches
+	// nested inside a match: the predicate may drop the outer one and keep the
+	// inner one, so the "skip the inside of a match" shortcut does not apply.
+	flags &^= flagsEnum.SmartDesc
 
 	qyInput, err := b.processNode(root.Input, (flags | flagsEnum.Filter), props)
 	if err != nil {
